@@ -17,6 +17,7 @@ import (
 	"context"
 	"fmt"
 	"io"
+	"io/fs"
 	"math/rand"
 	"net"
 	"os"
@@ -25,9 +26,12 @@ import (
 	"strings"
 	"sync"
 	"sync/atomic"
+	"testing/fstest"
 	"time"
 
 	"github.com/gokrazy/rsync/internal/maincmd"
+	"github.com/gokrazy/rsync/internal/rsyncopts"
+	"github.com/gokrazy/rsync/internal/rsyncos"
 	"github.com/gokrazy/rsync/rsyncclient"
 	"github.com/gokrazy/rsync/rsyncd"
 )
@@ -218,6 +222,96 @@ func runOverTransport(push bool, flags []string, src, dst string, c2s, s2c int, 
 		}
 	}
 	if (got[0] == "server-ok" || got[0] == "client-ok") && (got[1] == "server-ok" || got[1] == "client-ok") {
+		return "ok"
+	}
+	return got[0] + " / " + got[1]
+}
+
+// changingFS is a module whose files are being rewritten while the transfer runs: the first time such a
+// file is opened it still has its old content, every later open sees the new one (same size, same mtime) —
+// so what the sender reads for the delta and what it hashes for the whole-file checksum differ.
+type changingFS struct {
+	fstest.MapFS
+	old   map[string][]byte
+	mu    sync.Mutex
+	opens map[string]int
+}
+
+func (c *changingFS) Open(name string) (fs.File, error) {
+	if old, ok := c.old[name]; ok {
+		c.mu.Lock()
+		c.opens[name]++
+		n := c.opens[name]
+		c.mu.Unlock()
+		if n == 1 {
+			cur := c.MapFS[name]
+			return fstest.MapFS{name: &fstest.MapFile{Data: old, Mode: cur.Mode, ModTime: cur.ModTime}}.Open(name)
+		}
+	}
+	return c.MapFS.Open(name)
+}
+
+// runModuleOverTransport: a pull from an in-process server that serves the given module (fs.FS backed).
+func runModuleOverTransport(mod *rsyncd.Module, flags []string, dst string, c2s, s2c int, seed int64, deadline time.Duration) string {
+	a := newCapPipe(c2s, seed)
+	b := newCapPipe(s2c, seed+1)
+	cl, err := rsyncclient.New(flags, rsyncclient.DontRestrict(), rsyncclient.WithStderr(io.Discard))
+	if err != nil {
+		return "clienterr:" + err.Error()
+	}
+	srv, err := rsyncd.NewServer([]rsyncd.Module{*mod}, rsyncd.DontRestrict(), rsyncd.WithStderr(io.Discard))
+	if err != nil {
+		return "servererr:" + err.Error()
+	}
+	osenv := &rsyncos.Env{Stderr: io.Discard}
+	pc := rsyncopts.NewContext(rsyncopts.NewOptionsWithGokrazyDefaults(osenv))
+	if err := pc.ParseArguments(osenv, cl.ServerCommandOptions("./")); err != nil {
+		return "servererr:" + err.Error()
+	}
+	done := make(chan string, 2)
+	go func() {
+		defer func() {
+			if r := recover(); r != nil {
+				done <- fmt.Sprintf("panic(server):%v", r)
+			}
+		}()
+		err := srv.InternalHandleConn(context.Background(), rsyncd.NewConnection(a, b, "trace"), mod, pc)
+		b.Close()
+		if err != nil {
+			a.Close()
+			done <- "server-err:" + err.Error()
+		} else {
+			done <- "server-ok"
+		}
+	}()
+	go func() {
+		defer func() {
+			if r := recover(); r != nil {
+				done <- fmt.Sprintf("panic(client):%v", r)
+			}
+		}()
+		_, err := cl.Run(context.Background(), duplexRW{b, a}, []string{dst + "/"})
+		a.Close()
+		if err != nil {
+			b.Close()
+			done <- "client-err:" + err.Error()
+		} else {
+			done <- "client-ok"
+		}
+	}()
+	got := []string{}
+	timeout := time.After(deadline)
+	for len(got) < 2 {
+		select {
+		case s := <-done:
+			got = append(got, s)
+		case <-timeout:
+			a.Close()
+			b.Close()
+			return "timeout after " + deadline.String() + " (finished so far: " + fmt.Sprint(got) + ")"
+		}
+	}
+	if strings.HasSuffix(got[0], "-ok") && strings.HasSuffix(got[1], "-ok") {
 		return "ok"
 	}
 	return got[0] + " / " + got[1]
@@ -421,6 +515,67 @@ func suiteTrace(h *H) {
 			out = "timeout after 1m0s (local copy: client and in-process server both blocked)"
 		}
 		judge("local-copy", out)
+		os.RemoveAll(dir)
+	}
+	// ---- files that change while they are sent: what the receiver reconstructs does not verify. However many
+	// files that concerns, and whatever the transport buffers, the session ends — with an error, or with
+	// success if the files are requested again and then arrive intact.
+	{
+		dir := filepath.Join(base, "changing")
+		n := 0
+		counts := []int{1, 7, 31, 33, 34, 35, 40, 64, 65, 130}
+		if !h.thorough() {
+			counts = []int{1, 33, 36, 70}
+		}
+		for _, changing := range counts {
+			for _, pr := range [][2]int{{0, 0}, {17, 0}, {64 * 1024, 64 * 1024}, {-1, -1}} {
+				if !h.thorough() && pr[0] == 17 && changing != 36 {
+					continue
+				}
+				n++
+				T := time.Unix(1400000000, 0)
+				memfs := fstest.MapFS{}
+				old := map[string][]byte{}
+				for i := 0; i < changing; i++ {
+					name := fmt.Sprintf("a-changing-%03d", i)
+					memfs[name] = &fstest.MapFile{Data: bytes.Repeat([]byte{'N'}, 3000+i), Mode: 0o644, ModTime: T}
+					old[name] = bytes.Repeat([]byte{'o'}, 3000+i)
+				}
+				for i := 0; i < 10; i++ {
+					memfs[fmt.Sprintf("z-stable-%03d", i)] = &fstest.MapFile{Data: bytes.Repeat([]byte{'s'}, 5000+i), Mode: 0o644, ModTime: T}
+				}
+				mod := &rsyncd.Module{Name: "memfs", FS: &changingFS{MapFS: memfs, old: old, opens: map[string]int{}}}
+				dst := filepath.Join(dir, fmt.Sprintf("dst%d", n))
+				os.MkdirAll(dst, 0o755)
+				out := runModuleOverTransport(mod, []string{"-a"}, dst, pr[0], pr[1], int64(h.seed)+int64(n), 20*time.Second)
+				if strings.HasPrefix(out, "timeout") {
+					mod.FS.(*changingFS).opens = map[string]int{}
+					os.RemoveAll(dst)
+					os.MkdirAll(dst, 0o755)
+					out = runModuleOverTransport(mod, []string{"-a"}, dst, pr[0], pr[1], int64(h.seed)+int64(n), 120*time.Second)
+				}
+				v := ""
+				switch {
+				case strings.HasPrefix(out, "timeout"):
+					v = fmt.Sprintf("FAIL[C18] a session in which %d files fail verification never ends: %s", changing, out)
+				case strings.HasPrefix(out, "panic"):
+					v = "FAIL[C08] " + out
+				case out == "ok":
+					// reported success: then every file must have its current content
+					after := snapshot(dst)
+					for name, f := range memfs {
+						if g, ok := after[name]; !ok || !bytes.Equal(g.content, f.Data) {
+							v = fmt.Sprintf("FAIL[C01] %q does not have the source's content although the session reported success", name)
+							break
+						}
+					}
+				}
+				h.emit(fmt.Sprintf("!trace-changing seed=%d files=%d c2s=%d s2c=%d", h.seed, changing, pr[0], pr[1]), strings.SplitN(out, ":", 2)[0], v, true)
+				h.out.Flush()
+				h.stat("trace.changing-files")
+				os.RemoveAll(dst)
+			}
+		}
 		os.RemoveAll(dir)
 	}
 }
